@@ -11,7 +11,7 @@ use std::panic::{catch_unwind, AssertUnwindSafe};
 
 use ironplc_analyzer::stages::analyze;
 use ironplc_dsl::common::*;
-use ironplc_dsl::core::{FileId, Id, SourceSpan};
+use ironplc_dsl::core::{FileId, Id, Located, SourceSpan};
 use ironplc_dsl::diagnostic::Diagnostic;
 use ironplc_dsl::visitor::Visitor;
 use ironplc_parser::options::ParseOptions;
@@ -737,6 +737,69 @@ fn op_datadecl(case: &Value) -> Value {
     }
 }
 
+/// The nodes the three rules on type declarations look at, with the spans their labels can be put on:
+///   ST,s-e,name@s-e@s-e:..     a structure declaration: span of its name; per element: name, span of the identifier (twice)
+///   EV,name@s-e@s-e:..         an enumeration declaration with values: per value its name, span of the identifier, span of the value
+///   SR,neg,magnitude,s-e,neg,magnitude,s-e    a subrange: minimum and maximum
+struct DeclFacts {
+    out: Vec<String>,
+}
+
+fn sp(s: &SourceSpan) -> String {
+    format!("{}-{}", s.start, s.end)
+}
+
+impl Visitor<()> for DeclFacts {
+    type Value = ();
+
+    fn visit_structure_declaration(&mut self, node: &StructureDeclaration) -> Result<(), ()> {
+        let l: Vec<String> = node.elements.iter().map(|e| format!("{}@{}@{}", hx(&e.name.original), sp(&e.name.span()), sp(&e.name.span()))).collect();
+        self.out.push(format!("ST,{},{}", sp(&node.type_name.span()), l.join(":")));
+        node.recurse_visit(self)
+    }
+    fn visit_enumeration_declaration(&mut self, node: &EnumerationDeclaration) -> Result<(), ()> {
+        if let EnumeratedSpecificationKind::Values(vs) = &node.spec_init.spec {
+            let l: Vec<String> = vs.values.iter().map(|v| format!("{}@{}@{}", hx(&v.value.original), sp(&v.value.span()), sp(&v.span()))).collect();
+            self.out.push(format!("EV,{}", l.join(":")));
+        }
+        node.recurse_visit(self)
+    }
+    fn visit_subrange(&mut self, node: &ironplc_dsl::common::Subrange) -> Result<(), ()> {
+        self.out.push(format!("SR,{},{},{},{},{},{}", node.start.is_neg as u8, node.start.value.value, sp(&node.start.value.span()),
+                              node.end.is_neg as u8, node.end.value.value, sp(&node.end.value.span())));
+        node.recurse_visit(self)
+    }
+}
+
+const DECL_RULES: [&str; 3] = ["rule_decl_struct_element_unique_names", "rule_enumeration_values_unique", "rule_decl_subrange_limits"];
+
+/// parse every file, resolve, emit the declaration facts of the resolved library and run the three rules on it, each by itself
+fn op_declfacts(case: &Value) -> Value {
+    let (libs, errs) = parse_files(case);
+    let refs: Vec<&Library> = libs.iter().map(|x| &x.1).collect();
+    match ironplc_analyzer::verif_hooks::resolve_types(&refs) {
+        Ok(lib) => {
+            let mut v = DeclFacts { out: vec![] };
+            let _ = v.walk(&lib);
+            let mut rules = serde_json::Map::new();
+            for r in DECL_RULES.iter() {
+                if let Some(res) = ironplc_analyzer::verif_hooks::rule(r, &lib) {
+                    let ds: Vec<Value> = match res {
+                        Ok(_) => vec![],
+                        Err(ds) => ds.iter().map(diag_json).collect(),
+                    };
+                    rules.insert(r.to_string(), Value::Array(ds));
+                }
+            }
+            json!({"parse_errs": errs, "facts": v.out, "rules": rules})
+        }
+        Err(ds) => {
+            let ds: Vec<Value> = ds.iter().map(diag_json).collect();
+            json!({"parse_errs": errs, "xform_diags": ds})
+        }
+    }
+}
+
 const FACT_RULES: [&str; 8] = [
     "rule_var_decl_const_initialized",
     "rule_var_decl_const_not_fb",
@@ -945,6 +1008,7 @@ fn run_case(case: &Value) -> Value {
         "project" => op_project(case),
         "events" => op_events(case),
         "facts" => op_facts(case),
+        "declfacts" => op_declfacts(case),
         "latebound" => op_latebound(case),
         "roundtrip" => op_roundtrip(case),
         "render" => op_render(case),
